@@ -504,6 +504,12 @@ pub(crate) struct KMergeIterator<'iter> {
 
 	/// Comparator for key comparison
 	cmp: Arc<dyn Comparator>,
+
+	/// Step all sources past an entry that several of them hold byte for byte.
+	/// Set for the memtables + B+tree merge: after a crash inside a flush the
+	/// index already holds entries that WAL replay puts into a memtable again,
+	/// and each version must still be listed once.
+	skip_identical: bool,
 }
 
 impl<'a> KMergeIterator<'a> {
@@ -583,6 +589,7 @@ impl<'a> KMergeIterator<'a> {
 			direction: MergeDirection::Forward,
 			initialized: false,
 			cmp,
+			skip_identical: true,
 		})
 	}
 
@@ -693,6 +700,7 @@ impl<'a> KMergeIterator<'a> {
 			direction: MergeDirection::Forward,
 			initialized: false,
 			cmp,
+			skip_identical: false,
 		}
 	}
 
@@ -870,10 +878,16 @@ impl<'a> KMergeIterator<'a> {
 		}
 
 		let winner_idx = self.winner.unwrap();
+		let forward = self.direction == MergeDirection::Forward;
+		let left_behind = if self.skip_identical {
+			Some(self.iterators[winner_idx].key().encoded().to_vec())
+		} else {
+			None
+		};
 		let iter = &mut self.iterators[winner_idx];
 
 		// Advance the winning iterator
-		let still_valid = if self.direction == MergeDirection::Forward {
+		let still_valid = if forward {
 			iter.next()?
 		} else {
 			iter.prev()?
@@ -881,6 +895,26 @@ impl<'a> KMergeIterator<'a> {
 
 		if !still_valid {
 			self.active_count = self.active_count.saturating_sub(1);
+		}
+
+		// The same entry in another source: it has just been returned
+		if let Some(key) = left_behind {
+			for (idx, iter) in self.iterators.iter_mut().enumerate() {
+				if idx == winner_idx {
+					continue;
+				}
+				while iter.valid() && iter.key().encoded() == key.as_slice() {
+					let still_valid = if forward {
+						iter.next()?
+					} else {
+						iter.prev()?
+					};
+					if !still_valid {
+						self.active_count = self.active_count.saturating_sub(1);
+						break;
+					}
+				}
+			}
 		}
 
 		// Find new winner
